@@ -61,6 +61,11 @@ fn ops() -> Vec<Op> {
         ("decrypt", Box::new(|cc, w| { let c = (w.enc.clone(), vec![0u8; 40]); <Covercrypt as PkeAc<32, Aes256Gcm>>::decrypt(cc, &w.usk, &c).is_err() })),
         ("generate", Box::new(|cc, w| EncryptedHeader::generate(cc, &w.mpk, &ap("D::a"), Some(b"md"), Some(b"ad")).is_ok())),
         ("header_decrypt", Box::new(|cc, w| { let h = EncryptedHeader { encapsulation: w.enc.clone(), encrypted_metadata: None }; h.decrypt(cc, &w.usk, None).unwrap().is_some() })),
+        // policies naming the same attribute twice (in one clause / in several clauses): refused or accepted, but the call RETURNS
+        ("encaps_repeated_attribute", Box::new(|cc, w| { let _ = cc.encaps(&w.mpk, &ap("D::a && D::a")); let _ = cc.encaps(&w.mpk, &ap("D::a || D::a")); true })),
+        ("encrypt_repeated_attribute", Box::new(|cc, w| { let _ = <Covercrypt as PkeAc<32, Aes256Gcm>>::encrypt(cc, &w.mpk, &ap("D::a && (D::a || D::b)"), b"x"); true })),
+        ("generate_repeated_attribute", Box::new(|cc, w| { let _ = EncryptedHeader::generate(cc, &w.mpk, &ap("(D::a || D::b) && (D::a || D::b)"), None, None); true })),
+        ("keygen_repeated_attribute", Box::new(|cc, w| { let _ = cc.generate_user_secret_key(&mut w.msk, &ap("D::b && D::b")); let _ = cc.rekey(&mut w.msk, &ap("D::a && D::a")); true })),
     ]
 }
 
